@@ -39,6 +39,10 @@ struct Facts {
 }
 
 fn facts(f: &Fixture, tx: &[u8]) -> Facts {
+    facts_with(f, tx, &f.utxo)
+}
+
+fn facts_with(f: &Fixture, tx: &[u8], utxo: &[UtxoEntry]) -> Facts {
     let id = tx_id(tx);
     let wits: Vec<W> = vkey_witnesses(tx).into_iter().map(|(vk, sig)| W { vk, sig }).collect();
     let valid: Vec<bool> = wits.iter().map(|w| dalek_verify(&w.vk, &id, &w.sig)).collect();
@@ -46,7 +50,7 @@ fn facts(f: &Fixture, tx: &[u8]) -> Facts {
     let mut needs = vec![];
     for (key, kind) in [(0u64, "input"), (13, "collateral")] {
         for (h, ix) in body_inputs(tx, key) {
-            if let Some(e) = f.utxo.iter().rev().find(|e| e.tx_hash == h && e.index == ix) {
+            if let Some(e) = utxo.iter().rev().find(|e| e.tx_hash == h && e.index == ix) {
                 if let Some((true, kh)) = e.out.payment_cred() {
                     needs.push((kind, kh, has_valid(&kh)));
                 }
@@ -108,12 +112,61 @@ fn bad_sig(rng: &mut Rng, sk: &[u8; 32], id: &[u8; 32], ops: &mut Vec<String>) -
 struct Mutant {
     tx: Vec<u8>,
     ops: Vec<String>,
+    /// UTxO entries added by the mutation (on top of the fixture's)
+    extra_utxo: Vec<UtxoEntry>,
 }
 
 fn mutate(f: &Fixture, rng: &mut Rng) -> Mutant {
     let mut ops: Vec<String> = vec![];
     let mut tx = f.tx_bytes.clone();
     let post_alonzo = !matches!(f.era, Era::Shelley | Era::Allegra | Era::Mary);
+    let mut extra_utxo: Vec<UtxoEntry> = vec![];
+    // --- body changed but the witnesses are those of the original transaction (a witness replayed onto
+    //     another transaction id); the original was validated on this thread just before
+    if rng.chance(1, 10) {
+        let outs = pv::fixmut::outputs(&tx);
+        if !outs.is_empty() {
+            let i = rng.usize_below(outs.len());
+            tx = pv::fixmut::edit_output(&tx, i, |o| {
+                if let Some(Node::Bytes(a, _)) = pv::fixmut::out_address_mut(o) {
+                    if a.len() > 8 {
+                        let k = 1 + rng.usize_below(a.len().min(29) - 1);
+                        a[k] ^= 1 << rng.below(8);
+                    }
+                }
+            });
+            ops.push(format!("output{i}-redirected-witnesses-not-renewed"));
+            return Mutant { tx, ops, extra_utxo };
+        }
+    }
+    // --- an additional collateral input that is another output of the transaction a spent input comes
+    //     from, locked by a key that does not sign
+    if post_alonzo && !body_inputs(&tx, 13).is_empty() && rng.chance(1, 8) {
+        let ins = body_inputs(&tx, 0);
+        if let Some((h, ix)) = ins.first().copied() {
+            let (_, vk) = fresh_key(rng);
+            let like = f.utxo.iter().find(|e| e.role == Role::Collateral).map(|e| e.out.clone());
+            if let Some(mut out) = like {
+                let mut addr = vec![0x60 | (out.address.first().copied().unwrap_or(0x61) & 0x0f)];
+                addr.extend_from_slice(&key_hash(&vk));
+                out.address = addr;
+                out.coin = 7_000_000;
+                out.assets = vec![];
+                let nix = ix + 1 + rng.below(3);
+                let mut coll = body_inputs(&tx, 13);
+                coll.push((h, nix));
+                let nodes: Vec<Node> = coll.iter().map(|(h, i)| Node::arr(vec![Node::bytes(h), Node::u(*i)])).collect();
+                let like_node = body_get(&tx, 13);
+                tx = body_set(&tx, 13, Some(pv::fixmut::list_like(like_node.as_ref(), nodes)));
+                if let Some(t) = body_get(&tx, 17).and_then(|n| node_u64(&n)) {
+                    tx = body_set(&tx, 17, Some(Node::u(t + out.coin)));
+                }
+                extra_utxo.push(UtxoEntry { role: Role::Collateral, tx_hash: h, index: nix, out });
+                tx = f.resign(&tx);
+                ops.push("sibling-collateral-of-unsigned-key".into());
+            }
+        }
+    }
     // --- body-level: required signers
     let mut extra_signer: Option<([u8; 32], [u8; 32])> = None;
     if post_alonzo && rng.chance(1, 4) {
@@ -215,7 +268,7 @@ fn mutate(f: &Fixture, rng: &mut Rng) -> Mutant {
         }
     }
     let pairs: Vec<(Vec<u8>, Vec<u8>)> = ws.into_iter().map(|w| (w.vk, w.sig)).collect();
-    Mutant { tx: set_vkey_witnesses(&tx, &pairs), ops }
+    Mutant { tx: set_vkey_witnesses(&tx, &pairs), ops, extra_utxo }
 }
 
 fn add_required_signer(tx: &[u8], h: &[u8; 28]) -> Vec<u8> {
@@ -227,13 +280,15 @@ fn add_required_signer(tx: &[u8], h: &[u8; 28]) -> Vec<u8> {
 }
 
 fn check(ctx: &mut Ctx, f: &Fixture, m: &Mutant) {
-    let fa = facts(f, &m.tx);
+    let mut utxo = f.utxo.clone();
+    utxo.extend(m.extra_utxo.iter().cloned());
+    let fa = facts_with(f, &m.tx, &utxo);
     // extra witnesses make the transaction larger than its fee pays for: the fee and size rules (C36) are taken out
     // of the way in the environment so that the witness rules decide
     let mut env = f.env.clone();
     env.set_minfee(0, 0);
     env.set_max_tx_size(1 << 24);
-    let v = f.validate_with(&m.tx, &f.utxo, &env);
+    let v = f.validate_with(&m.tx, &utxo, &env);
     ctx.eval();
     let grp = era_group(f.era);
     let n = fa.wits.len();
@@ -330,7 +385,7 @@ fn position_grid(ctx: &mut Ctx, f: &Fixture) {
             let mut ops = vec![format!("grid rot={rot}")];
             w2[p].1 = bad_sig(&mut rng, &sk, &id, &mut ops);
             ops.push(format!("corrupt@{p}"));
-            let m = Mutant { tx: set_vkey_witnesses(&f.tx_bytes, &w2), ops };
+            let m = Mutant { tx: set_vkey_witnesses(&f.tx_bytes, &w2), ops, extra_utxo: vec![] };
             check(ctx, f, &m);
             ctx.count("grid_cases");
         }
@@ -345,7 +400,7 @@ fn main() {
         let r = &v["replay"];
         let f = fixtures.iter().find(|f| f.name == r["fixture"].as_str().unwrap_or("")).expect("fixture");
         let tx = hex::decode(r["tx"].as_str().unwrap()).unwrap();
-        let m = Mutant { tx, ops: vec!["replay".into()] };
+        let m = Mutant { tx, ops: vec!["replay".into()], extra_utxo: vec![] };
         let fa = facts(f, &m.tx);
         check(&mut ctx, f, &m);
         println!("replayed {}: witnesses={} valid={:?} needs={:?} verdict={} violations={}", f.name, fa.wits.len(), fa.valid, fa.needs.iter().map(|x| (x.0, x.2)).collect::<Vec<_>>(), { let mut e = f.env.clone(); e.set_minfee(0, 0); e.set_max_tx_size(1 << 24); f.validate_with(&m.tx, &f.utxo, &e).label() }, ctx.n_violations());
@@ -359,7 +414,7 @@ fn main() {
             continue;
         }
         // unmutated: oracle and validator must agree that nothing is wrong
-        check(&mut ctx, f, &Mutant { tx: f.tx_bytes.clone(), ops: vec![] });
+        check(&mut ctx, f, &Mutant { tx: f.tx_bytes.clone(), ops: vec![], extra_utxo: vec![] });
         position_grid(&mut ctx, f);
         ctx.count("fixtures");
     }
